@@ -495,7 +495,101 @@ def iofault_cell(cell):
     return res
 
 
+TRICKY_NAMES = ["plain", "run#1", "p%3D1", "a?b=c", "with space", "dot.d", "q'uote", "ünï-код", "100%", "semi;colon", "amp&and", "[brackets]", "tilde~", "trailing."]
+DECOYS = ["run", "p=1", "a", "100", "dot"]   # what a URI-style reading of some of the names above would resolve to
+
+
+def paths_cell(cell):
+    """Folder names are arbitrary strings (or pathlib.Path objects, absolute or relative to a working directory that changes
+    between save and restore): a checkpoint written to F is read back from F, by both back-ends, whatever F is called and
+    whatever lies next to it."""
+    import os
+    from pathlib import Path
+
+    from black_it.utils import sqlite3_checkpointing as sq
+
+    res = {"evaluations": 0, "nontrivial": 0, "states": 0, "transitions": 0, "traces": 0, "stats": {}, "outcomes": set(), "violations": [], "samples": []}
+    cfg = cell["cfg"]
+
+    def viol(key, what, case):
+        if sum(1 for x in res["violations"] if x["key"] == key) < 1:
+            res["violations"].append({"key": key, "what": what, "case": case})
+
+    with C.scratch() as root:
+        live = C.build(dict(cfg, saving_folder=None))
+        other = C.build(dict(cfg, saving_folder=None, seed=(cfg.get("seed") or 0) + 11))
+        with quiet():
+            live.calibrate(2)
+            other.calibrate(3)
+        # decoys: complete checkpoints of ANOTHER run under the names a mis-parsed path would resolve to
+        for dn in DECOYS:
+            with quiet():
+                other.create_checkpoint(str(root / "json" / dn))
+                sq.save_calibrator_state(root / "sql" / dn, *_sq_comps(other))
+        want = C.state(live)
+        want_sq = [canon(x) for x in _sq_comps(live)]
+        cwd0 = os.getcwd()
+        try:
+            for name in cell["names"]:
+                for style in ("str", "Path", "relative"):
+                    case = {"mode": "paths", "cfg": cfg, "names": [name]}
+                    res["evaluations"] += 2
+                    res["transitions"] += 2
+                    res["traces"] += 1
+                    res["nontrivial"] += 1
+                    # JSON/CSV/HDF5 back-end through the public API
+                    try:
+                        os.chdir(root / "json")
+                        target = {"str": str(root / "json" / name), "Path": root / "json" / name, "relative": name}[style]
+                        with quiet():
+                            live.create_checkpoint(target)
+                        if style == "relative":
+                            os.chdir(root)           # the working directory changes between save and restore
+                            target = str(Path("json") / name)
+                        with quiet():
+                            rest = C.restore(target, cfg)
+                        got = C.state(rest)
+                        if got != want:
+                            viol("restored-state-differs:path", f"checkpoint written to the folder {name!r} ({style}) restores as another state: {diff(want, got)[:3]}", case)
+                    except Exception as e:  # noqa: BLE001
+                        viol("restore-raises:path", f"save/restore through the folder {name!r} ({style}) raised {type(e).__name__}: {e}", case)
+                    finally:
+                        os.chdir(cwd0)
+                    # SQLite back-end
+                    try:
+                        os.chdir(root / "sql")
+                        target = {"str": str(root / "sql" / name), "Path": root / "sql" / name, "relative": name}[style]
+                        with quiet():
+                            sq.save_calibrator_state(target, *_sq_comps(live))
+                            got = [canon(x) for x in sq.load_calibrator_state(target)]
+                        bad = [i for i, (a, b) in enumerate(zip(want_sq, got)) if a != b and i != 7]
+                        if bad:
+                            viol("sqlite-component-differs:path", f"SQLite checkpoint written to the folder {name!r} ({style}) loads with different components (positions {bad})", case)
+                        stray = sorted(p.name for p in (root / "sql").iterdir() if p.name not in DECOYS and p.name not in TRICKY_NAMES)
+                        if stray:
+                            viol("sqlite-stray-file", f"loading the folder {name!r} created {stray} next to it", case)
+                    except Exception as e:  # noqa: BLE001
+                        viol("sqlite-raises:path", f"SQLite save/load through the folder {name!r} ({style}) raised {type(e).__name__}: {e}", case)
+                    finally:
+                        os.chdir(cwd0)
+                    res["outcomes"].add(("path", style))
+        finally:
+            os.chdir(cwd0)
+    res["states"] = res["evaluations"]
+    res["outcomes"] = sorted(res["outcomes"])
+    return res
+
+
+def _sq_comps(live):
+    return [live.param_grid.parameters_bounds, live.param_grid.parameters_precision, live.real_data, live.ensemble_size, live.N, live.D,
+            live.convergence_precision, live.verbose, live.saving_folder, live.random_state, live.random_generator.bit_generator.state,
+            live.model.__name__, live.scheduler, live.loss_function, live.current_batch_index, live.params_samp, live.losses_samp,
+            live.series_samp, live.batch_num_samp, live.method_samp]
+
+
 def run_cell(cell):
+    if cell["kind"] == "paths":
+        return paths_cell(cell)
     if cell["kind"] == "straight":
         return straight_cell(cell)
     if cell["kind"] == "long":
@@ -508,6 +602,9 @@ def run_cell(cell):
 def replay_case(case):
     if case.get("mode") == "floats":
         r = float_cell({})
+        return [{"key": v["key"], "what": v["what"]} for v in r["violations"]]
+    if case.get("mode") == "paths":
+        r = paths_cell({"cfg": case["cfg"], "names": case["names"]})
         return [{"key": v["key"], "what": v["what"]} for v in r["violations"]]
     if case.get("mode") == "long":
         r = long_cell({"cfg": case["cfg"], "batches": case["batches"]})
@@ -589,6 +686,8 @@ def main(ctx):
         for first in ("c1", "k"):
             cells.append({"kind": "straight", "cfg": {"lineup": lineups[0], "seed": S, "dims": 2, "model": "gauss2", "ensemble": 1}, "auto": auto, "first": first, "length": 5 if ctx.quick else 6})
     cells.append({"kind": "long", "cfg": {"lineup": [{"cls": "Halton", "bs": 8}, {"cls": "BestBatch", "bs": 5}, {"cls": "RandomUniform", "bs": 4}], "seed": S, "dims": 2, "model": "gauss2", "ensemble": 1}, "batches": 24})
+    for i in range(0, len(TRICKY_NAMES), 4):
+        cells.append({"kind": "paths", "cfg": {"lineup": lineups[0], "seed": S, "dims": 2, "model": "gauss2", "ensemble": 1}, "names": TRICKY_NAMES[i:i + 4]})
     cells.append({"kind": "iofault", "cfg": {"lineup": lineups[0], "seed": S, "dims": 2, "model": "gauss2", "ensemble": 1}, "batches": 2})
     # RL scheduler
     cells.append({"kind": "bfs", "cfg": {"lineup": lineups[0], "seed": S, "dims": 2, "model": "gauss2", "ensemble": 1, "scheduler": {"eps": 0.3, "agent_seed": 1}}, "depth": 2, "auto": True, "new_runs": []})
